@@ -197,7 +197,9 @@ def run(ctx) -> None:
     ctx.guard(r07_5)
     ctx.guard(r07_6)
     from .c03 import r03_5
-    ctx.guard_as("R07.7", r03_5)  # b64=false compact: which payloads stay attached (no '.' inside a compact token)
+    ctx.guard_as("R07.7", r03_5)
+    from .c19 import r19_4_5
+    ctx.guard_as("R07.8", r19_4_5)  # header JSON codec: foreign spellings (raw UTF-8, escapes) decode, own output is compact ASCII  # b64=false compact: which payloads stay attached (no '.' inside a compact token)
     ctx.note("R07.3 (foreign header spellings verify because the received octets are verified) and R07.4 (R||S width) reuse the C01 / C03 rule implementations and keep their rule ids")
     ctx.note("undecided remainder: agreement with an independent implementation for every key, header and payload needs an oracle implementation - a different technique")
     ctx.assume("RFC 7518 section 3 / RFC 8037 / RFC 8812 parameter table as transcribed in jv/spec/tables.py")
